@@ -24,8 +24,8 @@ termination_by rs ss => rs.length + ss.length
 def filterCore (ranges subtags : List Str) : Bool :=
   match ranges, subtags with
   | r :: rs, s :: ss =>
-    -- Empty specified language should match unspecified language attributes
-    if rs.isEmpty && ss.isEmpty && r.isEmpty && r == s then true
+    -- Empty specified language should only match unspecified (empty) language attributes
+    if rs.isEmpty && r.isEmpty then ss.isEmpty && r == s
     -- Primary tag needs to match
     else if (r != "*".toStr && r != s) || (r == "*".toStr && ss.isEmpty && s.isEmpty) then false
     else filterLoop rs ss
